@@ -14,6 +14,8 @@ CONSTANTS
   SimMode = FALSE
   VarLens = {0, 30, 31, 32, 33}
   VarW = {1}
+  VarBad = {"none"}
+  HistChoices <- HistTwo
 INVARIANT InvWellFormed
 INVARIANT InvTiles
 INVARIANT InvOrdered
